@@ -4,6 +4,7 @@ package main
 
 import (
 	"encoding/binary"
+	"fmt"
 	"math/rand"
 	"runtime/debug"
 	"syscall"
@@ -14,6 +15,12 @@ import (
 
 func init() {
 	register("lookup", "C19/C17: table lookups vs the portable reference on limb patterns; which table entries a lookup touches (page-fault oracle)", driveLookup)
+}
+
+func init() {
+	register("layout", "prints the memory layout of the table entry types (used to parameterise the assembly model)", func(c *ctx) {
+		fmt.Printf("LAYOUT point=%d affine=%d\n", secp256k1.VerifPointSize(), secp256k1.VerifAffineSize())
+	})
 }
 
 func buildName() string {
